@@ -49,3 +49,4 @@ CONSTANTS
  PeerWhileDisc = FALSE
  LateFrames = FALSE
  CrossVersion = TRUE
+ Restore = FALSE
